@@ -105,92 +105,17 @@ theorem parseCD_zipCD (crc32 : Bytes → Nat) (inflate : Bytes → Option Bytes)
 
 /-! ### the members -/
 
-theorem readMember_at (crc32 : Bytes → Nat) (inflate : Bytes → Option Bytes) (pre post : Bytes) (z : ZEntry) (hz : z.OK crc32 inflate) :
-    readMember crc32 inflate (pre ++ (localEntry z ++ post)) 0 (infoOf z pre.length) = some z.content := by
-  obtain ⟨hc, _, hmeth, hfl, _, hn, hle, _, _, _⟩ := hz
-  obtain ⟨f1, f2, f3⟩ := localFixed_fields z
-  have hd : (pre ++ (localEntry z ++ post)).drop (pre.length + 0) = localFixed z ++ (z.name ++ (z.lextra ++ (z.stored ++ post))) := by
-    rw [Nat.add_zero, List.drop_left' rfl, localEntry]; simp [List.append_assoc]
-  have ht : (localFixed z ++ (z.name ++ (z.lextra ++ (z.stored ++ post)))).take 30 = localFixed z := List.take_left' (localFixed_length z)
-  have hd30 : (localFixed z ++ (z.name ++ (z.lextra ++ (z.stored ++ post)))).drop 30 = z.name ++ (z.lextra ++ (z.stored ++ post)) :=
-    List.drop_left' (localFixed_length z)
-  have hdall : (localFixed z ++ (z.name ++ (z.lextra ++ (z.stored ++ post)))).drop (30 + z.name.length + z.lextra.length) = z.stored ++ post := by
-    have e1 : localFixed z ++ (z.name ++ (z.lextra ++ (z.stored ++ post))) = (localFixed z ++ (z.name ++ z.lextra)) ++ (z.stored ++ post) := by
-      simp only [List.append_assoc]
-    have e2 : (localFixed z ++ (z.name ++ z.lextra)).length = 30 + z.name.length + z.lextra.length := by
-      simp only [List.length_append, localFixed_length]; omega
-    rw [e1, List.drop_left' e2]
-  unfold readMember
-  simp only [infoOf, hd, ht, hd30, localFixed_length, f1, f2, f3, ne_eq, not_true_eq_false, or_self, if_false,
-    leNat_toLE 2 _ hn, leNat_toLE 2 _ hle, hdall, List.take_left' rfl, hfl]
-  rw [if_neg (by decide)]
-  rcases hmeth with ⟨hm, hs⟩ | ⟨hm, hs⟩
-  · simp [hm, hs, hc]
-  · simp [hm, hs, hc]
-
-theorem readMembers_locals (crc32 : Bytes → Nat) (inflate : Bytes → Option Bytes) : ∀ (zs : List ZEntry) (pre post : Bytes),
-    (∀ z ∈ zs, z.OK crc32 inflate) →
-    readMembers crc32 inflate (pre ++ (zipLocals zs ++ post)) 0 (infosOf pre.length zs) = some (zs.map fun z => (z.name, z.content))
-  | [], _, _, _ => rfl
-  | z :: zs, pre, post, hz => by
-    have h1 : pre ++ (zipLocals (z :: zs) ++ post) = pre ++ (localEntry z ++ (zipLocals zs ++ post)) := by simp [zipLocals]
-    have h2 : pre ++ (zipLocals (z :: zs) ++ post) = (pre ++ localEntry z) ++ (zipLocals zs ++ post) := by simp [zipLocals]
-    have hrest := readMembers_locals crc32 inflate zs (pre ++ localEntry z) post (fun y hy => hz y (by simp [hy]))
-    rw [List.length_append, ← h2] at hrest
-    simp only [infosOf, readMembers]
-    rw [h1, readMember_at crc32 inflate pre _ z (hz z (by simp)), ← h1, hrest]
-    rfl
-
-/-! ### the whole archive -/
-
-/-- **the modelled `zipfile` reader reads back what the modelled `zipfile` writer appended** to a file of
-    `pre.length` bytes: every member's name and content, in the writer's order.  `x` = the file up to the
-    end record, `e` = the end record; this is the hypothesis `hread` of `cqm_file_roundtrip_zip`. -/
-theorem readDirBytes_zipBytes (crc32 : Bytes → Nat) (inflate : Bytes → Option Bytes) (pre : Bytes) (zs : List ZEntry)
-    (hz : ∀ z ∈ zs, z.OK crc32 inflate) (hcount : zs.length < 256 ^ 2)
-    (hsize : pre.length + (zipLocals zs).length + (zipCD pre.length zs).length < 4294967295) :
-    readDirBytes crc32 inflate
-      ⟨(pre ++ (zipLocals zs ++ zipCD pre.length zs)).length,
-        eocdRecord zs.length (zipCD pre.length zs).length (pre.length + (zipLocals zs).length)⟩
-      ((pre ++ (zipLocals zs ++ zipCD pre.length zs)) ++
-        eocdRecord zs.length (zipCD pre.length zs).length (pre.length + (zipLocals zs).length)) =
-      some (zs.map fun z => (z.name, z.content)) := by
-  have h256 : (256 : Nat) ^ 4 = 4294967296 := by decide
-  obtain ⟨hs, ho, _⟩ := eocdRecord_fields zs.length (zipCD pre.length zs).length (pre.length + (zipLocals zs).length)
-    (pre ++ (zipLocals zs ++ zipCD pre.length zs)).length (by omega) (by omega) hcount
-  have hxl : (pre ++ (zipLocals zs ++ zipCD pre.length zs)).length = pre.length + (zipLocals zs).length + (zipCD pre.length zs).length := by
-    simp; omega
-  unfold readDirBytes EndRec.startDir
-  simp only [hs, ho]
-  rw [if_neg (by omega)]
-  have hsd : (pre ++ (zipLocals zs ++ zipCD pre.length zs)).length - (zipCD pre.length zs).length = pre.length + (zipLocals zs).length := by omega
-  simp only [hsd, Nat.lt_irrefl, if_false, Nat.sub_self]
-  have hfile : (pre ++ (zipLocals zs ++ zipCD pre.length zs)) ++
-      eocdRecord zs.length (zipCD pre.length zs).length (pre.length + (zipLocals zs).length) =
-      (pre ++ zipLocals zs) ++ (zipCD pre.length zs ++ eocdRecord zs.length (zipCD pre.length zs).length (pre.length + (zipLocals zs).length)) := by
-    simp [List.append_assoc]
-  have hcd : (((pre ++ (zipLocals zs ++ zipCD pre.length zs)) ++
-      eocdRecord zs.length (zipCD pre.length zs).length (pre.length + (zipLocals zs).length)).drop (pre.length + (zipLocals zs).length)).take
-        (zipCD pre.length zs).length = zipCD pre.length zs := by
-    rw [hfile, List.drop_left' (by simp), List.take_left' rfl]
-  rw [hcd, parseCD_zipCD crc32 inflate zs pre.length _ hz (by omega) (by omega)]
-  have hfile2 : (pre ++ (zipLocals zs ++ zipCD pre.length zs)) ++
-      eocdRecord zs.length (zipCD pre.length zs).length (pre.length + (zipLocals zs).length) =
-      pre ++ (zipLocals zs ++ (zipCD pre.length zs ++ eocdRecord zs.length (zipCD pre.length zs).length (pre.length + (zipLocals zs).length))) := by
-    simp [List.append_assoc]
-  rw [hfile2]
-  exact readMembers_locals crc32 inflate zs pre _ hz
-
 /-! ### an archive that does not start where its offsets say (`concat > 0`): bytes in front of it, or an
     archive EMBEDDED in the payload of another file that was cut right after it -/
 
-theorem readMember_at_shift (crc32 : Bytes → Nat) (inflate : Bytes → Option Bytes) (pre post : Bytes) (z : ZEntry) (off concat : Nat)
-    (hoc : off + concat = pre.length) (hz : z.OK crc32 inflate) :
-    readMember crc32 inflate (pre ++ (localEntry z ++ post)) concat (infoOf z off) = some z.content := by
+theorem readMember_at_shift (crc32 : Bytes → Nat) (inflate : Bytes → Option Bytes) (pre post : Bytes) (z : ZEntry) (off sd ocd : Nat)
+    (hoc : off + sd = pre.length + ocd) (hz : z.OK crc32 inflate) :
+    readMember crc32 inflate (pre ++ (localEntry z ++ post)) sd ocd (infoOf z off) = some z.content := by
   obtain ⟨hc, _, hmeth, hfl, _, hn, hle, _, _, _⟩ := hz
   obtain ⟨f1, f2, f3⟩ := localFixed_fields z
-  have hd : (pre ++ (localEntry z ++ post)).drop (off + concat) = localFixed z ++ (z.name ++ (z.lextra ++ (z.stored ++ post))) := by
-    rw [hoc, List.drop_left' rfl, localEntry]; simp [List.append_assoc]
+  have hpos : off + sd - ocd = pre.length := by omega
+  have hd : (pre ++ (localEntry z ++ post)).drop (off + sd - ocd) = localFixed z ++ (z.name ++ (z.lextra ++ (z.stored ++ post))) := by
+    rw [hpos, List.drop_left' rfl, localEntry]; simp [List.append_assoc]
   have ht : (localFixed z ++ (z.name ++ (z.lextra ++ (z.stored ++ post)))).take 30 = localFixed z := List.take_left' (localFixed_length z)
   have hd30 : (localFixed z ++ (z.name ++ (z.lextra ++ (z.stored ++ post)))).drop 30 = z.name ++ (z.lextra ++ (z.stored ++ post)) :=
     List.drop_left' (localFixed_length z)
@@ -201,6 +126,7 @@ theorem readMember_at_shift (crc32 : Bytes → Nat) (inflate : Bytes → Option 
       simp only [List.length_append, localFixed_length]; omega
     rw [e1, List.drop_left' e2]
   unfold readMember
+  rw [if_neg (by simp only [infoOf]; omega)]
   simp only [infoOf, hd, ht, hd30, localFixed_length, f1, f2, f3, ne_eq, not_true_eq_false, or_self, if_false,
     leNat_toLE 2 _ hn, leNat_toLE 2 _ hle, hdall, List.take_left' rfl, hfl]
   rw [if_neg (by decide)]
@@ -208,25 +134,27 @@ theorem readMember_at_shift (crc32 : Bytes → Nat) (inflate : Bytes → Option 
   · simp [hm, hs, hc]
   · simp [hm, hs, hc]
 
-theorem readMembers_locals_shift (crc32 : Bytes → Nat) (inflate : Bytes → Option Bytes) (concat : Nat) :
-    ∀ (zs : List ZEntry) (pre post : Bytes) (off : Nat), off + concat = pre.length → (∀ z ∈ zs, z.OK crc32 inflate) →
-    readMembers crc32 inflate (pre ++ (zipLocals zs ++ post)) concat (infosOf off zs) = some (zs.map fun z => (z.name, z.content))
+theorem readMembers_locals_shift (crc32 : Bytes → Nat) (inflate : Bytes → Option Bytes) (sd ocd : Nat) :
+    ∀ (zs : List ZEntry) (pre post : Bytes) (off : Nat), off + sd = pre.length + ocd → (∀ z ∈ zs, z.OK crc32 inflate) →
+    readMembers crc32 inflate (pre ++ (zipLocals zs ++ post)) sd ocd (infosOf off zs) = some (zs.map fun z => (z.name, z.content))
   | [], _, _, _, _, _ => rfl
   | z :: zs, pre, post, off, hoc, hz => by
     have h1 : pre ++ (zipLocals (z :: zs) ++ post) = pre ++ (localEntry z ++ (zipLocals zs ++ post)) := by simp [zipLocals]
     have h2 : pre ++ (zipLocals (z :: zs) ++ post) = (pre ++ localEntry z) ++ (zipLocals zs ++ post) := by simp [zipLocals]
-    have hrest := readMembers_locals_shift crc32 inflate concat zs (pre ++ localEntry z) post (off + (localEntry z).length)
+    have hrest := readMembers_locals_shift crc32 inflate sd ocd zs (pre ++ localEntry z) post (off + (localEntry z).length)
       (by rw [List.length_append]; omega) (fun y hy => hz y (by simp [hy]))
     rw [← h2] at hrest
     simp only [infosOf, readMembers]
-    rw [h1, readMember_at_shift crc32 inflate pre _ z off concat hoc (hz z (by simp)), ← h1, hrest]
+    rw [h1, readMember_at_shift crc32 inflate pre _ z off sd ocd hoc (hz z (by simp)), ← h1, hrest]
     rfl
 
-/-- **an archive written for offset `base` is read back wherever it sits** (`base ≤ pre.length`; `zipfile` computes
-    `concat = location - size_cd - offset_cd = pre.length - base` and shifts every offset): in particular an archive
-    spelled by the PAYLOAD of another file, in a copy of that file cut right after it. -/
+/-- **an archive written for file offset `base` is read back wherever it sits** — after `pre.length` other bytes, whatever
+    `base` is (`zipfile` shifts every offset by the integer `concat = start_dir - offset_cd = pre.length - base`):
+    `base = pre.length` is what `ConstrainedQuadraticModel.to_file` writes after the header; `pre = []` with `base` = the
+    position of the `BIAS` payload is the `.npz` blob of a DQM file handed to `np.load` on its own; and `base < pre.length`
+    is an archive spelled by the PAYLOAD of another file, in a copy of that file cut right after it. -/
 theorem readDirBytes_zipBytes_shift (crc32 : Bytes → Nat) (inflate : Bytes → Option Bytes) (pre : Bytes) (base : Nat) (zs : List ZEntry)
-    (hbase : base ≤ pre.length) (hz : ∀ z ∈ zs, z.OK crc32 inflate) (hcount : zs.length < 256 ^ 2)
+    (hz : ∀ z ∈ zs, z.OK crc32 inflate) (hcount : zs.length < 256 ^ 2)
     (hsize : base + (zipLocals zs).length + (zipCD base zs).length < 4294967295) :
     readDirBytes crc32 inflate
       ⟨(pre ++ (zipLocals zs ++ zipCD base zs)).length, eocdRecord zs.length (zipCD base zs).length (base + (zipLocals zs).length)⟩
@@ -242,7 +170,6 @@ theorem readDirBytes_zipBytes_shift (crc32 : Bytes → Nat) (inflate : Bytes →
   rw [if_neg (by omega)]
   have hsd : (pre ++ (zipLocals zs ++ zipCD base zs)).length - (zipCD base zs).length = pre.length + (zipLocals zs).length := by omega
   simp only [hsd]
-  rw [if_neg (by omega)]
   have hfile : (pre ++ (zipLocals zs ++ zipCD base zs)) ++ eocdRecord zs.length (zipCD base zs).length (base + (zipLocals zs).length) =
       (pre ++ zipLocals zs) ++ (zipCD base zs ++ eocdRecord zs.length (zipCD base zs).length (base + (zipLocals zs).length)) := by
     simp [List.append_assoc]
@@ -254,6 +181,19 @@ theorem readDirBytes_zipBytes_shift (crc32 : Bytes → Nat) (inflate : Bytes →
       pre ++ (zipLocals zs ++ (zipCD base zs ++ eocdRecord zs.length (zipCD base zs).length (base + (zipLocals zs).length))) := by
     simp [List.append_assoc]
   rw [hfile2]
-  exact readMembers_locals_shift crc32 inflate _ zs pre _ base (by omega) hz
+  exact readMembers_locals_shift crc32 inflate _ _ zs pre _ base (by omega) hz
+
+/-- the archive appended to a file of `pre.length` bytes (`base = pre.length`, `concat = 0`): what
+    `ConstrainedQuadraticModel.to_file` writes; the hypothesis `hread` of `cqm_file_roundtrip_zip` -/
+theorem readDirBytes_zipBytes (crc32 : Bytes → Nat) (inflate : Bytes → Option Bytes) (pre : Bytes) (zs : List ZEntry)
+    (hz : ∀ z ∈ zs, z.OK crc32 inflate) (hcount : zs.length < 256 ^ 2)
+    (hsize : pre.length + (zipLocals zs).length + (zipCD pre.length zs).length < 4294967295) :
+    readDirBytes crc32 inflate
+      ⟨(pre ++ (zipLocals zs ++ zipCD pre.length zs)).length,
+        eocdRecord zs.length (zipCD pre.length zs).length (pre.length + (zipLocals zs).length)⟩
+      ((pre ++ (zipLocals zs ++ zipCD pre.length zs)) ++
+        eocdRecord zs.length (zipCD pre.length zs).length (pre.length + (zipLocals zs).length)) =
+      some (zs.map fun z => (z.name, z.content)) :=
+  readDirBytes_zipBytes_shift crc32 inflate pre pre.length zs hz hcount hsize
 
 end FileFmt
